@@ -181,5 +181,11 @@ fn create_dispatch_constant_speeds() {
     assert!(r3.len() == 3 && r3[0] >= 1 && r3[1] >= 1 && r3[2] >= 1 && r3[0] + r3[1] + r3[2] == 18);
     let r4 = e.create(16.0);
     assert!(r4.len() == 3 && r4[0] == 1 && r4[1] == 1 && r4[2] == 1);
+    // "at any other speed": a speed within a thousandth of 1 still rescales (801 frames at speed 1, round(801 / (1 + 2^-10)) = 800)
+    let long = DurationEstimator::new(vec![MeanVari(300.0, 1.0), MeanVari(500.0, 4.0), MeanVari(0.3, 0.01)], 3);
+    let l1 = long.create(1.0);
+    assert!(l1.len() == 3 && l1[0] == 300 && l1[1] == 500 && l1[2] == 1);
+    let l2 = long.create(1.0009765625);
+    assert!(l2.len() == 3 && l2[0] >= 1 && l2[1] >= 1 && l2[2] >= 1 && l2[0] + l2[1] + l2[2] == 800);
     kani::cover!(r2[0] == 2);
 }
